@@ -25,9 +25,11 @@ pub struct C(pub u64);
 pub struct R0(pub u64);
 #[derive(Clone, Copy, Debug, PartialEq, Eq)]
 pub struct R1(pub u64);
+#[derive(Clone, Copy, Debug, PartialEq, Eq)]
+pub struct R2(pub u64);
 
 pub type Reg = Registry!(A, B, C);
-pub type Res = Resources!(R0, R1);
+pub type Res = Resources!(R0, R1, R2);
 pub type W = World<Reg, Res>;
 
 // ---------------------------------------------------------------------------------------------
@@ -384,7 +386,7 @@ pub fn catalogue(with_c: bool) -> Vec<WorldSpec> {
 }
 
 pub fn build_world(spec: &WorldSpec) -> (W, Vec<entity::Identifier>) {
-    let mut w = W::with_resources(resources!(R0(1000), R1(2000)));
+    let mut w = W::with_resources(resources!(R0(1000), R1(2000), R2(3000)));
     let mut ids = Vec::new();
     for m in 0..8usize {
         let k = spec.arch[m];
@@ -429,7 +431,8 @@ pub fn snapshot(w: &mut W) -> Snap {
         rows.push((id.verif_parts(), a.map(|x| x.0), b.map(|x| x.0), c.map(|x| x.0)));
     }
     rows.sort();
-    (rows, w.get::<R0, _>().0, w.get::<R1, _>().0)
+    // the third resource is folded into the second slot of the snapshot (snapshots are only compared for equality)
+    (rows, w.get::<R0, _>().0, w.get::<R1, _>().0.wrapping_mul(1_000_003).wrapping_add(w.get::<R2, _>().0))
 }
 
 // ---------------------------------------------------------------------------------------------
@@ -438,7 +441,7 @@ pub fn snapshot(w: &mut W) -> Snap {
 #[derive(Clone, Debug)]
 pub struct TaskDesc {
     pub label: &'static str,
-    /// (object, writes): objects 0..3 = components A,B,C; 10,11 = resources R0,R1
+    /// (object, writes): objects 0..3 = components A,B,C; 10,11,12 = resources R0,R1,R2
     pub access: Vec<(u8, bool)>,
     pub par: bool,
     /// components required by non-optional iterator views (bit mask)
